@@ -63,6 +63,10 @@ HdrViol(ev) ==
          THEN {IF host THEN "C10 checksum type differs from the header" ELSE "C11 opposite-endian checksum type read with a different meaning"} ELSE {})
    \cup (IF ev.mrc = 0 /\ acc /\ MdOf(ev).ct = view.ct /\ MdOf(ev).mis # view.mis
          THEN {IF host THEN "C10 payload checksum mismatch not reported exactly" ELSE "C11 opposite-endian payload mismatch detection differs"} ELSE {})
+   \cup (IF (~acc \/ ~host) /\ Has(ev, "rs0") /\ ((ev.rs0 # 999 /\ ev.rs0 # EBADHEADER) \/ (ev.rsl # 999 /\ ev.rsl # EBADHEADER))
+         THEN {"C09 reconstruct with a supplied destination must still refuse a bad header anywhere in the list"} ELSE {})
+   \cup (IF acc /\ host /\ geom /\ Has(ev, "rs0") /\ ev.rs0 # 999 /\ ev.be # 0 /\ (ev.rs0 # 0 \/ ev.rs0same # 1 \/ ev.rsl # 0 \/ ev.rslsame # 1)
+         THEN {"C03 supplied destination not returned unchanged"} ELSE {})
    \cup (IF ~acc \/ ~host THEN (IF (ev.drc # 999 /\ ev.drc # EBADHEADER) \/ (ev.rrc # 999 /\ ev.rrc # EBADHEADER)
                                 THEN {"C09 decode/reconstruct must refuse the header with the bad-header error"} ELSE {})
          ELSE IF geom /\ ev.drc # 999 /\ ev.paysame = 1 /\ (ev.drc # 0 \/ ev.dmatch # 1 \/ (ev.be # 0 /\ (ev.rrc # 0 \/ ev.rsame # 1)))
